@@ -23,7 +23,7 @@ RULE = ("histories of 2-8 requester threads x 1-6 tagged S2F25 requests against 
         "and policy; non-trivial when at least two requests were outstanding simultaneously. SECS-I: histories of 2-6 "
         "requester threads with single- and multi-block S2F25 requests all outstanding together over a scripted line peer, then "
         "replies and unsolicited primaries (single/multi-block) in order / reversed / shuffled / with the blocks of different "
-        "messages interleaved / partly dropped, over 1-3 line close/reopen cycles, both device roles")
+        "messages interleaved / partly dropped, over 1-3 line close/reopen cycles, both device roles; plus (HSMS): replies with the abort function S2F0; a partial frame behind a complete message in one segment before the link loss")
 ASSUMPTIONS = ["SECS-I histories keep the two directions in separate phases (only one side transmits at a time, as C17 assumes); "
                "line contention is not produced",
                "a reply that arrives after its requester timed out may be handed to the application as an ordinary message or be "
